@@ -87,6 +87,7 @@ namespace pm
       long a = 0;
       long b = 0;
       int action = NO_ACTION;
+      int action1 = NO_ACTION;  // action attached in the second action family (selected by action< act1, ... >)
       std::string tname;  // PEGTL's demangle<>() text when the node is a user-visible type ("" for synthetic nodes)
       std::string errmsg;  // custom error_message of this type ("" = default)
       std::string mi_msg;  // must_if< Errors >: Errors::message< Rule > ("" = nullptr)
@@ -124,9 +125,10 @@ namespace pm
       int node;
       int begin;
       int end;
+      int fam = 0;  // action family the invoked action belongs to
       bool operator==( const event& o ) const
       {
-         return node == o.node && begin == o.begin && end == o.end;
+         return node == o.node && begin == o.begin && end == o.end && fam == o.fam;
       }
    };
 
@@ -203,6 +205,7 @@ namespace pm
       action_script as;
       std::vector< event > events;
       bool ignore_actions = false;  // evaluate as if no action family were attached
+      int top_fam = 0;              // family the parse is started with (-1: tao::pegtl::nothing - actions only below an action<> rule)
       bool use_must_if = false;     // the run uses a must_if< Errors > control: local failure of flagged rules raises
       std::uint64_t fuel = 2000000;
       std::uint64_t steps = 0;
@@ -214,16 +217,16 @@ namespace pm
       long col0 = 1;
 
       // memo of every evaluation performed: (node,pos,end,actions) -> outcome
-      std::map< std::tuple< int, int, int, bool >, outcome > memo;
+      std::map< std::tuple< int, int, int, int >, outcome > memo;
       // the same before the node's own action is taken into account ("did the rule itself match")
-      std::map< std::tuple< int, int, int, bool >, outcome > memo_pre;
+      std::map< std::tuple< int, int, int, int >, outcome > memo_pre;
       std::uint64_t caught = 0;  // exceptions converted by try_catch rules
       // C11: witnesses of cycles without progress
       bool detect_loops = false;
       bool loop_witness = false;
       std::string loop_kind;
       int loop_node = -1;
-      std::set< std::tuple< int, int, int, bool > > open_calls;
+      std::set< std::tuple< int, int, int, int > > open_calls;
       bool build_tree = false;
       std::vector< tnode > tstack;  // tstack[0] is the root
       bool tree_discarded = false;  // a successfully matched typed node was discarded later (non-triviality for C12)
@@ -241,6 +244,11 @@ namespace pm
          bool act;
          int depth;       // nesting of limit_depth-guarded rules
          long depth_max;  // innermost configured maximum (-1 none)
+         int fam = 0;     // action family selected by the innermost action<> rule (0 = the family the parse was started with)
+         int akey() const
+         {
+            return ( act ? 1 : 0 ) | ( ( fam + 1 ) << 1 );
+         }
       };
 
       outcome ok( int e )
@@ -333,9 +341,9 @@ namespace pm
             o.k = FUEL;
             return o;
          }
-         std::tuple< int, int, int, bool > okey;
+         std::tuple< int, int, int, int > okey;
          if( detect_loops ) {
-            okey = std::make_tuple( ni, pos, c.end, c.act );
+            okey = std::make_tuple( ni, pos, c.end, c.akey() );
             if( !open_calls.insert( okey ).second ) {
                // the same expression is evaluated again at the same position while its evaluation is still open: left recursion
                loop_witness = true;
@@ -349,7 +357,7 @@ namespace pm
          struct closer
          {
             machine& m;
-            const std::tuple< int, int, int, bool >& k;
+            const std::tuple< int, int, int, int >& k;
             ~closer()
             {
                if( m.detect_loops ) {
@@ -373,13 +381,14 @@ namespace pm
          outcome r = eval_inner( ni, pos, c );
          const node& n = g.nodes[ std::size_t( ni ) ];
          if( r.k != FUEL ) {
-            memo_pre[ std::make_tuple( ni, pos, c.end, c.act ) ] = r;
+            memo_pre[ std::make_tuple( ni, pos, c.end, c.akey() ) ] = r;
          }
          if( top_running && c.act ) {
             visited_act.insert( std::make_tuple( ni, pos, c.end ) );
          }
-         if( r.k == OK && c.act && !ignore_actions && n.action != NO_ACTION ) {
-            events.push_back( { ni, pos, r.end } );
+         const int akind = ( c.fam == 1 ) ? n.action1 : ( c.fam == 0 ) ? n.action : int( NO_ACTION );
+         if( r.k == OK && c.act && !ignore_actions && akind != NO_ACTION ) {
+            events.push_back( { ni, pos, r.end, c.fam } );
             const int tag = g.tag[ std::size_t( ni ) ];
             if( as.throws( tag, pos, r.end ) ) {
                outcome t;
@@ -388,7 +397,7 @@ namespace pm
                t.stdexc = ( t.serial & 1 ) != 0;
                r = t;
             }
-            else if( ( n.action == BOOL_APPLY || n.action == BOOL_APPLY0 ) && as.veto( tag, pos, r.end ) ) {
+            else if( ( akind == BOOL_APPLY || akind == BOOL_APPLY0 ) && as.veto( tag, pos, r.end ) ) {
                saw_veto = true;
                r = fail();
             }
@@ -423,7 +432,7 @@ namespace pm
             }
          }
          if( r.k != FUEL ) {
-            memo[ std::make_tuple( ni, pos, c.end, c.act ) ] = r;
+            memo[ std::make_tuple( ni, pos, c.end, c.akey() ) ] = r;
          }
          return r;
       }
@@ -858,8 +867,13 @@ namespace pm
                d.act = false;
                return seq_kids( n, 0, pos, d );
             }
-            case SCOPE:
-               return seq_kids( n, 0, pos, c );
+            case SCOPE: {
+               ctx d = c;
+               if( n.a == 2 ) {
+                  d.fam = int( n.b );  // action< Fam, ... >
+               }
+               return seq_kids( n, 0, pos, d );
+            }
             case LIMIT_DEPTH: {
                ctx d = c;
                d.depth = c.depth + 1;
@@ -884,13 +898,13 @@ namespace pm
 
       outcome run( int pos = 0 )
       {
-         ctx c{ int( in.size() ), true, 0, -1 };
+         ctx c{ int( in.size() ), true, 0, -1, top_fam };
          events.clear();
          return eval( g.top, pos, c );
       }
       outcome run_cfg( bool actions, int pos = 0 )
       {
-         ctx c{ int( in.size() ), actions, 0, -1 };
+         ctx c{ int( in.size() ), actions, 0, -1, top_fam };
          events.clear();
          visited_act.clear();
          tstack.clear();
@@ -902,34 +916,35 @@ namespace pm
          return r;
       }
 
-      outcome pre_verdict( int ni, int pos, int end, bool act )
+      outcome pre_verdict( int ni, int pos, int end, bool act, int fam = 0 )
       {
-         auto it = memo_pre.find( std::make_tuple( ni, pos, end, act ) );
+         const int ak = ( act ? 1 : 0 ) | ( ( fam + 1 ) << 1 );
+         auto it = memo_pre.find( std::make_tuple( ni, pos, end, ak ) );
          if( it != memo_pre.end() ) {
             return it->second;
          }
          const std::vector< event > keep = events;
          const bool bt = build_tree;
          build_tree = false;  // on-demand queries must not touch the derivation tree of the top-level run
-         ctx c{ end, act, 0, -1 };
+         ctx c{ end, act, 0, -1, fam };
          (void)eval( ni, pos, c );
          build_tree = bt;
          events = keep;
-         it = memo_pre.find( std::make_tuple( ni, pos, end, act ) );
+         it = memo_pre.find( std::make_tuple( ni, pos, end, ak ) );
          return it == memo_pre.end() ? outcome() : it->second;
       }
 
       // verdict for an arbitrary (node,pos,end,act) - from the memo when the top-level evaluation visited it
-      outcome verdict( int ni, int pos, int end, bool act )
+      outcome verdict( int ni, int pos, int end, bool act, int fam = 0 )
       {
-         auto it = memo.find( std::make_tuple( ni, pos, end, act ) );
+         auto it = memo.find( std::make_tuple( ni, pos, end, ( act ? 1 : 0 ) | ( ( fam + 1 ) << 1 ) ) );
          if( it != memo.end() ) {
             return it->second;
          }
          const std::vector< event > keep = events;
          const bool bt = build_tree;
          build_tree = false;
-         ctx c{ end, act, 0, -1 };
+         ctx c{ end, act, 0, -1, fam };
          outcome r = eval( ni, pos, c );
          build_tree = bt;
          events = keep;
